@@ -170,6 +170,8 @@ func proposalProfile() Profile {
 
 func determinismProfile() Profile {
 	p := DefaultProfile()
+	p.PWideIDs = 0.4
+	p.WRead = 6
 	p.MinVoters = 4
 	p.MaxJoiners = 2
 	p.WConf = 3
